@@ -583,4 +583,28 @@ def _guard_conds(f, b):
             if f.dominates(pb.succs[0], x) and not (pb.succs[1] is not None and f.dominates(pb.succs[1], x)):
                 out.append(pb.term["cond"])
         x = p
-    return out
+    # a flag that stands for a conjunction (`complete = upstream_ok && lastfrag; ... if (complete)`): its conjuncts
+    defs = single_defs(f)
+    work, res = list(out), []
+    seen = set()
+    while work:
+        c = work.pop()
+        res.append(c)
+        y = sk(c)
+        while y is not None and y.get("k") == "Paren":
+            y = sk(y["a"][0])
+        if y is not None and y.get("k") == "Bin" and y["op"] == "&&":
+            work.extend(y["a"])         # an unsplit conjunction (a flag that was propagated into the test)
+            continue
+        if y is not None and y.get("k") == "Ref" and y["ref"].get("rk") == "local" and y["ref"]["id"] in defs and y["ref"]["id"] not in seen:
+            seen.add(y["ref"]["id"])
+            st = [defs[y["ref"]["id"]]]
+            while st:
+                d = sk(st.pop())
+                while d is not None and d.get("k") == "Paren":
+                    d = sk(d["a"][0])
+                if d is not None and d.get("k") == "Bin" and d["op"] == "&&":
+                    st.extend(d["a"])
+                elif d is not None:
+                    work.append(d)
+    return res
